@@ -77,9 +77,13 @@ def run(ctx):
         ctx.sample({'query': c['q'], 'A': c['A'], 'B': c['B'], 'model': e, 'implementation': {k: g_.get(k) for k in ('events', 'pulls', 'error')} if isinstance(g_, dict) else g_})
     # rbql-js/rbql.js is an anchor of this property too: the JavaScript leg runs language-neutral queries of this shape through rbql-js
     importlib.import_module('props.c19').js_leg(ctx, THEOREM, 'select', 600 if ctx.tier == 'quick' else 60000)
+    # "every input table": dataframes with typed columns (int64 / float64 / bool / str / object) through the pandas front-end, same model
+    importlib.import_module('props.c01pd').run(ctx, THEOREM)
 
 
 def replay(ctx, case):
+    if case.get('part') == 'c01pd':
+        return importlib.import_module('props.c01pd').replay(ctx, case, THEOREM)
     if case.get('impl') == 'js':
         return importlib.import_module('props.c19').replay(ctx, case)
     ec.replay(ctx, case, THEOREM)
